@@ -271,10 +271,32 @@ func (s *Session) Churn(nNodes, nSpare, steps int) {
 		case x < 72 && len(spare) > 0:
 			s.Repair(members, 3) // membership changes are issued on a repaired ring (a failing attempt would sleep in its retry loop)
 			j := spare[0]
-			if s.Do("join", U(j), U(Pick(rng, members))) == "ok" {
+			spare = spare[1:]
+			if rng.Chance(45) {
+				// stepped join: the protocol is paused before each FinishJoin call; the joiner's predecessor may
+				// leave right after the advisory, while the successor's lock is still held
+				if s.Do("joinbegin", U(j), U(Pick(rng, members))) == "ok" {
+					s.Do("jointasks", U(j))
+					s.Do("joinadvise", U(j))
+					members = append(members, j)
+					if p, ok := s.PredOf(j); ok && len(members) > 2 && rng.Chance(60) {
+						if sc, ok2 := s.SuccOf(j); ok2 && sc != p && p != j {
+							if s.Do("leave", U(p)) == "ok" {
+								var rest []uint64
+								for _, m := range members {
+									if m != p {
+										rest = append(rest, m)
+									}
+								}
+								members = rest
+							}
+						}
+					}
+					s.Do("joinrelease", U(j))
+				}
+			} else if s.Do("join", U(j), U(Pick(rng, members))) == "ok" {
 				members = append(members, j)
 			}
-			spare = spare[1:]
 			s.afterChange(members)
 		case x < 82 && len(members) > 1:
 			s.Repair(members, 3)
